@@ -12,6 +12,7 @@ import SSEPyVerif.Proofs.Schemes.ANSS16
 import SSEPyVerif.Proofs.Schemes.CT14
 import SSEPyVerif.Proofs.Schemes.SSE1
 import SSEPyVerif.Proofs.Schemes.Pi2Lev
+import SSEPyVerif.Proofs.Schemes.DP17
 namespace SSEPy.C02
 open SSEPy.Sch SSEPy.Sch.Chain
 
@@ -93,5 +94,13 @@ theorem SSE2.search_absent_empty (cfg : SSE2Cfg) (lv : Leaves) (K1 : Bytes) (db 
       refine ⟨a, by simpa using hg, ?_⟩
       rw [l2 a (hfresh a ha)]
       rfl
+
+/-- DP17: a keyword none of whose `L` probe keys `H(F_k1(w) ‖ c)` is in the hash table gets the empty result: no bucket is
+    read, nothing is decrypted, nothing raises -/
+theorem DP17.search_absent_empty (cfg : DP17Cfg) (lv : Leaves) (edb : DP17EDB) (tag vtag etag : Bytes)
+    (hmiss : ∀ c, 1 ≤ c → c < 1 + cfg.L.toNat →
+      ∃ key, DP17.hashH cfg lv (tag ++ natToBytesMin c) = .ok key ∧ edb.HT.get key = none) :
+    DP17.search cfg lv edb [tag, vtag, etag] = .ok [] :=
+  DP17.searchCounts_absent cfg lv edb tag vtag etag cfg.L.toNat 1 hmiss
 
 end SSEPy.C02
